@@ -42,6 +42,19 @@ func MarshalTWKB(g Geometry, precXY int, opts ...TWKBWriterOption) ([]byte, erro
 		return []byte{}, fmt.Errorf("TWKB got precM = %d, expected it to be between 0 and +7", s.precM)
 	}
 
+	if len(s.idList) > 0 {
+		// An ID list has one entry per member of a Multi* geometry or
+		// GeometryCollection. It can't be represented for other types, or
+		// for empty geometries (which are written as just an is-empty header).
+		switch g.Type() {
+		case TypePoint, TypeLineString, TypePolygon:
+			return nil, fmt.Errorf("TWKB ID list (length %d) is not allowed for %s", len(s.idList), g.Type())
+		}
+		if g.IsEmpty() {
+			return nil, fmt.Errorf("TWKB ID list (length %d) is not allowed for an empty %s", len(s.idList), g.Type())
+		}
+	}
+
 	w := newtwkbWriter(hasZ, hasM, precXY, s.precZ, s.precM, s.hasSize, s.hasBBox, s.closeRings, s.idList)
 	if err := w.writeGeometry(g); err != nil {
 		return nil, fmt.Errorf("failed to marshal TWKB: %w", err)
